@@ -49,3 +49,29 @@ func verifC02NativeSharedDefect() {}
 func verifC02NativeRepeat(wf string) {}
 func verifC10NativeSameActionPath(wf string) {}
 func verifC02NativeNested() {}
+
+// verifPrintedWithSource: what PrettyPrint writes for one diagnostic with its source (colours off).
+func verifPrintedWithSource(e *Error, src []byte) []string {
+	verifColorOutput(false)
+	verifCaptureOutput(true)
+	e.PrettyPrint(nil, src)
+	parts := verifCapturedParts()
+	verifCaptureOutput(false)
+	var lines []string
+	cur := ""
+	for _, p := range parts {
+		for {
+			k := strings.IndexByte(p, '\n')
+			if k < 0 {
+				break
+			}
+			lines = append(lines, cur+p[:k])
+			cur, p = "", p[k+1:]
+		}
+		cur += p
+	}
+	if cur != "" {
+		lines = append(lines, cur)
+	}
+	return lines
+}
